@@ -152,6 +152,10 @@ func c11Edges(r *fw.Rand, body []ref.Node) []ref.Node {
 
 func c11Msg(r *fw.Rand, k int) *ref.Msg {
 	m := &ref.Msg{Desc: fmt.Sprintf("message %d", k)}
+	if r.P(1, 6) {
+		// a description of several lines (written with \n in the attribute), or with a tab, a quote, a backslash
+		m.Desc += []string{"\nsecond line\nthird", "\twith a tab", " \"quoted\" \\ backslash", "\n"}[r.Intn(4)]
+	}
 	if r.P(1, 4) {
 		m.Meaning = []string{"noun", "verb"}[r.Intn(2)]
 	}
@@ -445,6 +449,11 @@ func init() {
 			os.MkdirAll(filepath.Join(dir, "src"), 0755)
 			os.MkdirAll(filepath.Join(dir, "po"), 0755)
 			os.WriteFile(filepath.Join(dir, "src", "c11.soy"), []byte(src), 0644)
+			if i%3 == 0 {
+				// a message without content beside them: there is nothing to translate, and nothing to stumble over
+				os.WriteFile(filepath.Join(dir, "src", "empty.soy"), []byte("{namespace emp}\n/** */\n{template .t}[{msg desc=\"nothing\"}{/msg}]{/template}\n"), 0644)
+				ctx.Cell("empty-message-extracted")
+			}
 			// 1. extract with the real binary
 			var stdout, stderr bytes.Buffer
 			cmd := exec.Command(os.Getenv("VERIF_XGETTEXT"), filepath.Join(dir, "src"))
@@ -529,7 +538,7 @@ func init() {
 				}
 				seenID[infos[k].ID] = true
 				pm := byID[infos[k].ID]
-				fmt.Fprintf(&pof, "#. %s\n#: id=%d", m.Desc, infos[k].ID)
+				fmt.Fprintf(&pof, "#. %s\n#: id=%d", strings.ReplaceAll(m.Desc, "\n", "\n#. "), infos[k].ID)
 				tr := &ref.Translation{}
 				if pl, isPl := m.Body[0].(*ref.Plural); isPl {
 					fmt.Fprintf(&pof, " var=%s\n", infos[k].PluralVar)
